@@ -33,3 +33,56 @@ for cls in CLASSES:
     c.ensures("result == v", name="column-value-survives-the-database")
     c.raises(None)
 
+
+
+# ---------------------------------------------------------------- pie Key.key_wrapping_data accessors
+def leaf(d, *path):
+    """value at a path of nested dictionaries; None when any step is missing"""
+    for k in path:
+        if not isinstance(d, dict) or k not in d:
+            return None
+        d = d[k]
+    return d
+
+
+def kwd_roundtrip(key, wrapping_method, eki_uid, eki_mode, eki_random_iv, eki_iv_length, eki_tag_length,
+                  mski_uid, mski_hash, mac_signature, iv_counter_nonce, encoding_option):
+    """what the store does with the key wrapping data of a registered wrapped key: the setter spreads
+    the dictionary over the 33 columns, the getter (used by Get) assembles it again"""
+    key.key_wrapping_data = {
+        'wrapping_method': wrapping_method,
+        'encryption_key_information': {
+            'unique_identifier': eki_uid,
+            'cryptographic_parameters': {'block_cipher_mode': eki_mode, 'random_iv': eki_random_iv,
+                                         'iv_length': eki_iv_length, 'tag_length': eki_tag_length}},
+        'mac_signature_key_information': {
+            'unique_identifier': mski_uid,
+            'cryptographic_parameters': {'hashing_algorithm': mski_hash}},
+        'mac_signature': mac_signature, 'iv_counter_nonce': iv_counter_nonce,
+        'encoding_option': encoding_option}
+    return key.key_wrapping_data
+
+
+OPT = lambda k: ('oneof', 'none', k)      # noqa: E731
+c = contract("contracts.c_sqltypes.kwd_roundtrip").props('C05')
+c.args(key=('obj', 'kmip.pie.objects.SymmetricKey', {}),
+       wrapping_method=('enum', 'kmip.core.enums.WrappingMethod'), eki_uid=OPT('str'),
+       eki_mode=OPT(('enum', 'kmip.core.enums.BlockCipherMode')), eki_random_iv=OPT('bool'),
+       eki_iv_length=OPT('nat'), eki_tag_length=OPT('nat'), mski_uid=OPT('str'),
+       mski_hash=OPT(('enum', 'kmip.core.enums.HashingAlgorithm')), mac_signature=OPT('bytes'),
+       iv_counter_nonce=OPT('bytes'), encoding_option=OPT(('enum', 'kmip.core.enums.EncodingOption')))
+EKI_CP = "'encryption_key_information', 'cryptographic_parameters'"
+c.ensures("leaf(result, 'wrapping_method') == wrapping_method and leaf(result, 'encoding_option') == encoding_option "
+          "and leaf(result, 'mac_signature') == mac_signature and leaf(result, 'iv_counter_nonce') == iv_counter_nonce",
+          name="top-level-fields-survive")
+c.ensures("leaf(result, 'encryption_key_information', 'unique_identifier') == eki_uid and "
+          "leaf(result, 'mac_signature_key_information', 'unique_identifier') == mski_uid",
+          name="key-identifiers-survive")
+c.ensures("leaf(result, %s, 'block_cipher_mode') == eki_mode and "
+          "leaf(result, 'mac_signature_key_information', 'cryptographic_parameters', 'hashing_algorithm') == mski_hash" % EKI_CP,
+          name="enumeration-parameters-survive")
+c.ensures("leaf(result, %s, 'random_iv') == eki_random_iv and leaf(result, %s, 'iv_length') == eki_iv_length "
+          "and leaf(result, %s, 'tag_length') == eki_tag_length" % (EKI_CP, EKI_CP, EKI_CP),
+          name="falsy-parameters-survive")
+c.raises(None)
+c.modifies("key.*")
